@@ -107,8 +107,8 @@ def selfmod_image(lane):
     words[1] = 1000                               # stack pointer
     # word 2 (bytes 8..11): LDAM 6 ; fill to reach the chosen lane of word 3
     seq = [0x06] + [0x40] * (3 + lane)            # LDAM 6 ; LDBC 0 ...
-    old = [0x23, 0x31, 0x41, 0x82]                # STAM 3 ; LDAC 1 ; LDBM 1 ; STAI 2
-    new = [0x23, 0x30, 0x41, 0x82]                # STAM 3 ; LDAC 0 ; LDBM 1 ; STAI 2
+    old = [0x23, 0x31, 0x11, 0x82]                # STAM 3 ; LDAC 1 ; LDBM 1 ; STAI 2
+    new = [0x23, 0x30, 0x11, 0x82]                # STAM 3 ; LDAC 0 ; LDBM 1 ; STAI 2
     code = seq + old[: 4 - lane] if lane == 0 else None
     if lane == 0:
         bytes_ = seq + old + [0x30, 0xD3, 0, 0]
@@ -116,7 +116,7 @@ def selfmod_image(lane):
     else:
         # store in lane 1 behind a PFIX 0: word 3 = [PFIX 0, STAM 3, LDAC x, LDBM 1]; next word: STAI 2 ; LDAC 0 ; SVC
         seq = [0x06, 0x40, 0x40, 0x40]
-        oldw = [0xE0, 0x23, 0x31, 0x41]; neww = [0xE0, 0x23, 0x30, 0x41]
+        oldw = [0xE0, 0x23, 0x31, 0x11]; neww = [0xE0, 0x23, 0x30, 0x11]
         bytes_ = seq + oldw + [0x82, 0x30, 0xD3, 0]
         words[6] = w(neww)
     for i in range(0, len(bytes_), 4): words[2 + i//4] = w(bytes_[i:i+4])
@@ -132,7 +132,7 @@ def confirm_rtl_hidden(ck, label, what, junkvals):
         for lane in (0, 1):
             p = os.path.join(d, f'selfmod{lane}.bin'); open(p, 'wb').write(selfmod_image(lane))
             r1 = subprocess.run([hexsim, p], capture_output=True, timeout=60); r2 = subprocess.run([hextb, p], cwd=d, capture_output=True, timeout=120)
-            if r1.returncode == 0 and r2.returncode != 0: found = {'image': f'store into its own word at byte lane {lane}', 'hexsim_exit': r1.returncode, 'hextb_exit': r2.returncode}; break
+            if (r1.returncode, r1.stdout) != (r2.returncode, r2.stdout.replace(b"Wrote 64 bytes to memory\n", b"")): found = {'image': f'store into its own word at byte lane {lane}', 'hexsim_exit': r1.returncode, 'hextb_exit': r2.returncode}; break
     finally: shutil.rmtree(d, ignore_errors=True)
     key = f"{label}:hidden-state"
     msg = (f"{label}: the clocked design keeps state outside pc/areg/breg/oreg/memory that the next instruction depends on ({what} differs from the ISA successor "
